@@ -101,6 +101,8 @@ pub struct Hist {
     pub target_frames: Vec<TargetFrame>,
     pub commander_requests: Vec<(u64, String)>,
     pub target_eof: Vec<(u64, u32)>,
+    /// (step, channel): the target closed its end of the channel.
+    pub target_closed: Vec<(u64, u32)>,
     pub marks: Vec<(u64, String)>,
     pub reports: Vec<ReportSnap>,
     /// (step, peer): the reader half stopped reading (until the drain phase).
@@ -203,7 +205,11 @@ async fn peer_writer(
         tokio::time::sleep(Duration::from_millis(script.attach_after_ms)).await;
         shared.borrow_mut().sleeping = false;
     }
-    if let Some(of) = script.reattach_of {
+    if let (Some(of), true) = (script.reattach_of, script.reattach_immediately) {
+        // Under the id of a remote that is still attached: wait only until that one has attached.
+        WaitFor { shared: shared.clone(), cond: |s: &PeerShared| s.drain || s.barrier_release > 0 }.await;
+        hist.borrow_mut().marks.push((now_step(), format!("peer{} attaches as a duplicate of peer{}", script.id, of)));
+    } else if let Some(of) = script.reattach_of {
         // Wait until the runtime has reported the earlier remote of that id gone, its script is over and the system
         // has been idle once since (nothing of the earlier session is in flight any more); give up when the run is
         // being wound up.
@@ -581,6 +587,7 @@ async fn link_server(
     drain: Rc<RefCell<bool>>,
 ) {
     let mut chan = 0u32;
+    let mut keys_seen: Vec<String> = vec![];
     while let Some(req) = rx.recv().await {
         match req {
             LinkRequest::Commander(c) => {
@@ -593,8 +600,14 @@ async fn link_server(
                 let (tx, rx) = byte_channel(NonZeroUsize::new(knobs.target_cap.max(1) as usize).unwrap());
                 let id = chan;
                 chan += 1;
+                let first_for_key = !keys_seen.contains(&key);
+                if first_for_key {
+                    keys_seen.push(key.clone());
+                }
                 let t = TargetReader {
                     chan: id,
+                    close_after: if first_for_key { knobs.target_close_after } else { 0 },
+                    seen: 0,
                     key,
                     reader: Some(rx),
                     buf: BytesMut::new(),
@@ -619,6 +632,8 @@ async fn link_server(
 
 struct TargetReader {
     chan: u32,
+    close_after: u32,
+    seen: u32,
     key: String,
     reader: Option<ByteReader>,
     buf: BytesMut,
@@ -671,6 +686,14 @@ impl Future for TargetReader {
                             body: body.to_vec(),
                             chan: this.chan,
                         });
+                        this.seen += 1;
+                        if this.close_after > 0 && this.seen >= this.close_after {
+                            // The target stops: its end of the channel is dropped with whatever is still in it.
+                            this.hist.borrow_mut().target_closed.push((now_step(), this.chan));
+                            this.hist.borrow_mut().marks.push((now_step(), format!("target channel {} closed by the target after {} commands", this.chan, this.seen)));
+                            this.reader = None;
+                            return Poll::Ready(());
+                        }
                     }
                 }
                 cx.waker().wake_by_ref();
@@ -1152,6 +1175,7 @@ pub async fn run_scenario(sc: &AgentScenario, keep_log: bool) -> RunRecord {
                                 .collect(),
                             reattach_of: None,
                             attach_after_ms: 0,
+                            reattach_immediately: false,
                         };
                         let shared: SharedPeer = Rc::new(RefCell::new(PeerShared::default()));
                         inc2.peers.push(shared.clone());
